@@ -33,6 +33,8 @@ type e3Shape struct {
 	Prompt   bool   // has prompt
 	NCmds    int
 	TaskName string // CLI name of the task under test
+	TaskVar  string // NAME=value passed with the task under test ("" = none)
+	OtherVar string // NAME=value passed with the other task
 	Other    string // CLI name of another task with the same sources
 }
 
@@ -84,7 +86,11 @@ func (s e3Shape) render() map[string]string {
 		var t strings.Builder
 		fmt.Fprintf(&t, "  %s:\n", name)
 		fmt.Fprintf(&t, "    method: %s\n", s.Method)
-		fmt.Fprintf(&t, "    sources: %s\n", e3Globs[s.Glob].yaml)
+		if s.Shape == "labelvar" && name == "tut" {
+			t.WriteString("    sources: ['{{.TARGET}}/*.txt']\n")
+		} else {
+			fmt.Fprintf(&t, "    sources: %s\n", e3Globs[s.Glob].yaml)
+		}
 		if s.Gen {
 			t.WriteString("    generates: ['out/gen.txt']\n")
 		}
@@ -107,6 +113,9 @@ func (s e3Shape) render() map[string]string {
 		w.WriteString(taskBody(name, false))
 		if s.Shape == "label" {
 			w.WriteString("    label: 'the task under test'\n")
+		}
+		if s.Shape == "labelvar" {
+			w.WriteString("    label: 'tut-{{.TARGET}}'\n")
 		}
 		if s.Prompt {
 			w.WriteString("    prompt: 'really?'\n")
@@ -148,7 +157,12 @@ func (s e3Shape) render() map[string]string {
 	b.WriteString("    cmds:\n      - cmd: " + yamlq(`printf 'withsub c1\n' >> "$VERIF_TRACE"`) + "\n      - task: prefail\n")
 	// a parent that runs the task under test next to a failing sibling
 	b.WriteString("  sibling:\n    cmds:\n      - cmd: " + yamlq(`i=0; while [ ! -f spin.started ] && [ $i -lt 30000 ]; do i=$((i+1)); done; exit 1`) + "\n")
-	fmt.Fprintf(&b, "  parent:\n    deps: ['%s', sibling]\n", s.TaskName)
+	if s.TaskVar != "" {
+		kv := strings.SplitN(s.TaskVar, "=", 2)
+		fmt.Fprintf(&b, "  parent:\n    deps:\n      - task: '%s'\n        vars: {%s: '%s'}\n      - sibling\n", s.TaskName, kv[0], kv[1])
+	} else {
+		fmt.Fprintf(&b, "  parent:\n    deps: ['%s', sibling]\n", s.TaskName)
+	}
 	files["Taskfile.yml"] = b.String()
 	return files
 }
@@ -520,13 +534,13 @@ func (st *e3State) step(op e3Op, rng *rand.Rand, part *h.Partial) []e3Verdict {
 			"dry-withdir":     {"--dry", "withdir"},
 			"summary-withdir": {"--summary", "withdir"},
 			"dry-parent":      {"--dry", "parent"},
-			"run-dry":         {"--dry", sh.TaskName},
-			"run-status":      {"--status", sh.TaskName},
+			"run-dry":         sh.withVar("--dry", sh.TaskName),
+			"run-status":      sh.withVar("--status", sh.TaskName),
 			"list-json":       {"--list", "--json"},
 			"list-all-json":   {"--list-all", "--json"},
 			"list":            {"--list"},
 			"list-all":        {"--list-all"},
-			"summary":         {"--summary", sh.TaskName},
+			"summary":         sh.withVar("--summary", sh.TaskName),
 		}[op.Kind]
 		before := h.Snap(st.dir, true)
 		r, tr := st.invoke(e3Inv{args: args})
@@ -555,7 +569,11 @@ func (st *e3State) step(op e3Op, rng *rand.Rand, part *h.Partial) []e3Verdict {
 		}
 	case "run-other":
 		before := h.Snap(st.dir, true)
-		r, _ := st.invoke(e3Inv{args: []string{sh.Other}})
+		otherArgs := []string{sh.Other}
+		if sh.OtherVar != "" {
+			otherArgs = append(otherArgs, sh.OtherVar)
+		}
+		r, _ := st.invoke(e3Inv{args: otherArgs})
 		after := h.Snap(st.dir, true)
 		rec.Exit = r.Exit
 		part.Count("other_task_invocations", 1)
@@ -571,7 +589,7 @@ func (st *e3State) step(op e3Op, rng *rand.Rand, part *h.Partial) []e3Verdict {
 
 	// ---- plain invocations of the task under test ------------------------------
 	case "run", "run-fail", "run-force", "run-force-fail", "run-yes", "kill", "run-cancel":
-		inv := e3Inv{args: []string{sh.TaskName}, plain: true}
+		inv := e3Inv{args: sh.withVar(sh.TaskName), plain: true}
 		failFlag := ""
 		switch op.Kind {
 		case "run-fail":
@@ -830,7 +848,7 @@ func e3RandomShape(rng *rand.Rand) e3Shape {
 	s := e3Shape{
 		Method: []string{"checksum", "timestamp"}[rng.Intn(2)],
 		Glob:   rng.Intn(len(e3Globs)),
-		Shape:  []string{"plain", "plain", "deps", "label", "ns", "collide"}[rng.Intn(6)],
+		Shape:  []string{"plain", "plain", "deps", "label", "ns", "collide", "labelvar"}[rng.Intn(7)],
 		Gen:    rng.Intn(3) == 0,
 		Status: rng.Intn(4) == 0,
 		Prompt: rng.Intn(5) == 0,
@@ -840,9 +858,20 @@ func e3RandomShape(rng *rand.Rand) e3Shape {
 	return s
 }
 
+func (s e3Shape) withVar(args ...string) []string {
+	if s.TaskVar != "" {
+		return append(args, s.TaskVar)
+	}
+	return args
+}
+
 func (s *e3Shape) fixNames() {
 	s.TaskName, s.Other = "tut", "other"
+	s.TaskVar, s.OtherVar = "", ""
 	switch s.Shape {
+	case "labelvar":
+		// one task, two instances told apart by a variable in the label and in the sources
+		s.Other, s.TaskVar, s.OtherVar, s.Glob = "tut", "TARGET=src", "TARGET=other", 0
 	case "ns":
 		s.TaskName = "inc:tut"
 	case "collide":
@@ -865,6 +894,9 @@ func e3NewState(dir, bin string, s e3Shape, rng *rand.Rand) *e3State {
 			st.serial++
 			st.write(f, fmt.Sprintf("unmatched %d\n", st.serial))
 		}
+	}
+	if s.Shape == "labelvar" {
+		st.write("other/e.txt", "other instance\n")
 	}
 	if s.Status {
 		os.WriteFile(filepath.Join(dir, "status.ok"), nil, 0o644)
@@ -977,7 +1009,7 @@ func runE3(id string, start time.Time) int {
 		exhaustiveKill = true
 		i := 0
 		for _, method := range []string{"checksum", "timestamp"} {
-			for _, shape := range []string{"plain", "deps", "label", "ns", "collide"} {
+			for _, shape := range []string{"plain", "deps", "label", "ns", "collide", "labelvar"} {
 				for n := 1; n <= h.Pick(3, 4); n++ {
 					for _, gen := range []bool{false, true} {
 						s := e3Shape{Method: method, Glob: 0, Shape: shape, NCmds: n, Gen: gen}
@@ -1010,6 +1042,16 @@ func runE3(id string, start time.Time) int {
 	case "C05":
 		// matrix: method x {sources, +generates, +status, all} x change kind x glob shape
 		i := 0
+		// two instances of one task (variable in label and sources) and tasks with colliding names, interleaved
+		for _, method := range []string{"checksum", "timestamp"} {
+			for _, shape := range []string{"labelvar", "collide", "label", "ns"} {
+				s := e3Shape{Method: method, Glob: 0, Shape: shape, NCmds: 2}
+				s.fixNames()
+				ops := []e3Op{{Kind: "run"}, {Kind: "run-other"}, {Kind: "run"}, {Kind: "run-other"}, {Kind: "run"}, {Kind: "edit"}, {Kind: "run-other"}, {Kind: "run"}, {Kind: "run"}}
+				jobs = append(jobs, job{s, ops, "interleaved-instances", i})
+				i++
+			}
+		}
 		for _, method := range []string{"checksum", "timestamp"} {
 			for _, extra := range []struct{ gen, status bool }{{false, false}, {true, false}, {false, true}, {true, true}} {
 				for _, change := range []string{"edit", "touch", "add", "remove", "rename", "move", "edit-unmatched", "del-gen", "status-off", "none"} {
